@@ -116,6 +116,30 @@ func gen(seed int64, n int, tier string) []interface{} {
 				}
 			}
 		}
+		// a project class named like a library type: an EARLIER file (in walk order) imports the library's Helper and uses
+		// it; a LATER file of another package uses its own package's Helper without any import. What one file imports says
+		// nothing about the next file.
+		if r.Intn(5) == 0 {
+			call := func(recv string) javagen.Stmt {
+				e := javagen.Expr{K: "call", RecvKind: "var", Recv: recv, Callee: "run", Args: []javagen.Expr{}}
+				return javagen.Stmt{K: "expr", E: &e}
+			}
+			first := javagen.File{Id: "lib-user", PathKind: "main", Dirs: "aaa/first", Pkg: "aaa.first",
+				Imports: []javagen.Import{{Pkg: "ext.lib", Name: "Helper"}}}
+			first.Unit = javagen.Unit{Kind: "class", Name: "FirstUser", Members: []javagen.Member{
+				{Kind: "field", Name: "h", Type: "Helper", Mods: []string{"private"}},
+				{Kind: "method", Name: "go1", Type: "void", Mods: []string{"public"}, Body: []javagen.Stmt{call("h")}}}}
+			own := javagen.File{Id: "own-helper", PathKind: "main", Dirs: "zzz/last", Pkg: "zzz.last"}
+			own.Unit = javagen.Unit{Kind: "class", Name: "Helper", Members: []javagen.Member{
+				{Kind: "method", Name: "run", Type: "void", Mods: []string{"public"}}}}
+			last := javagen.File{Id: "own-user", PathKind: "main", Dirs: "zzz/last", Pkg: "zzz.last"}
+			mk := javagen.Expr{K: "new", Type: "Helper", Args: []javagen.Expr{}}
+			last.Unit = javagen.Unit{Kind: "class", Name: "LastUser", Members: []javagen.Member{
+				{Kind: "field", Name: "mine", Type: "Helper", Mods: []string{"private"}},
+				{Kind: "method", Name: "go2", Type: "void", Mods: []string{"public"}, Params: []javagen.Param{{Type: "Helper", Name: "given"}},
+					Body: []javagen.Stmt{call("mine"), call("given"), {K: "decl", Type: "Helper", Name: "made", E: &mk}, call("made")}}}}
+			p.Files = append(p.Files, first, own, last)
+		}
 		// a second module: another compilation unit of the tree declares the same package and type name (a copied or
 		// generated module) with other members; both are declared types of the tree
 		if k%4 != 3 && r.Intn(6) == 0 {
